@@ -78,6 +78,18 @@ static inline auto decode(const typename S::unit* b, size_t n, TOutStr& s, UtfEn
 }
 template <class U> static inline U bswap(U v) { if constexpr (sizeof(U) == 2) return (U)((v >> 8) | (v << 8)); else if constexpr (sizeof(U) == 4) return __builtin_bswap32(v); else return v; }
 
+// exact-extent option (C02_utf_exact.cpp): the source units live in a heap block of exactly n units, so that a read past the end
+// of the input range is a memory-safety failure instead of an unnoticed read of the next array slot
+#ifdef VH_EXACT_EXTENT
+template <class SU> struct ExactUnits {
+	SU* p;
+	ExactUnits(const SU* src, size_t n, size_t cap) : p(static_cast<SU*>(::operator new(n * sizeof(SU)))) { for (size_t i = 0; i < cap; i++) if (i < n) p[i] = src[i]; }
+	~ExactUnits() { ::operator delete(p); }
+};
+#define VH_VIEW(mem, n) ExactUnits<SU> ex_(mem, n, N); const SU* memv = ex_.p;
+#else
+#define VH_VIEW(mem, n) const SU* memv = mem;
+#endif
 template <class S, class D, Order O, size_t N> struct H {
 	typedef typename S::unit SU; typedef typename D::unit DU;
 	static constexpr size_t MAXOUT = D::maxper * N;   // no source unit can produce more target units than this
@@ -98,7 +110,8 @@ template <class S, class D, Order O, size_t N> struct H {
 		std::basic_string<typename D::cchar> s; s.reserve(MAXOUT + 8);
 		verif_nogrow(&s); verif_symbolic_phase();
 		size_t it = 0, cnt = 0;
-		UtfEncodingErrorCode ec = decode<S, D, O>(mem, n, s, UtfEncodingErrorPolicy::ThrowError, nullptr, &it, &cnt);
+		VH_VIEW(mem, n)
+		UtfEncodingErrorCode ec = decode<S, D, O>(memv, n, s, UtfEncodingErrorPolicy::ThrowError, nullptr, &it, &cnt);
 		uint32_t cps[N]; size_t ncp = 0; size_t wf = S::wf_prefix(abs, n, cps, N, &ncp);
 		DU e[MAXOUT]; size_t ne = expect_of(cps, ncp, e);
 		out[0] = (unsigned char)ec; out[1] = (unsigned char)it; out[2] = (unsigned char)s.size(); out[3] = (unsigned char)cnt;
@@ -112,8 +125,9 @@ template <class S, class D, Order O, size_t N> struct H {
 		static const typename D::cchar empty[1] = { 0 };
 		verif_nogrow(&a); verif_nogrow(&b); verif_symbolic_phase();
 		size_t itA = 0, cntA = 0, itB = 0, cntB = 0;
-		UtfEncodingErrorCode ecA = decode<S, D, O>(mem, n, a, UtfEncodingErrorPolicy::Skip, Detail::GetDefaultErrorMark<typename D::cchar>(), &itA, &cntA);
-		UtfEncodingErrorCode ecB = decode<S, D, O>(mem, n, b, UtfEncodingErrorPolicy::Skip, empty, &itB, &cntB);
+		VH_VIEW(mem, n)
+		UtfEncodingErrorCode ecA = decode<S, D, O>(memv, n, a, UtfEncodingErrorPolicy::Skip, Detail::GetDefaultErrorMark<typename D::cchar>(), &itA, &cntA);
+		UtfEncodingErrorCode ecB = decode<S, D, O>(memv, n, b, UtfEncodingErrorPolicy::Skip, empty, &itB, &cntB);
 		uint32_t cps[N]; size_t ncp = 0; size_t wf = S::wf_prefix(abs, n, cps, N, &ncp);
 		DU e[MAXOUT]; size_t ne = expect_of(cps, ncp, e);
 		out[0] = (unsigned char)ecA; out[1] = (unsigned char)itA; out[2] = (unsigned char)a.size(); out[3] = (unsigned char)cntA;
